@@ -30,7 +30,9 @@ def random_case(prop, rng, tier):
     if rng.random() < 0.4:
         theme = {'level_colors': COLORS[:rng.randrange(0, 4)]}
         if rng.random() < 0.5:
-            theme['header_color'] = rng.choice(COLORS)
+            theme['header_color'] = rng.choice(COLORS + [None])          # None = plain text
+        if theme['level_colors'] and rng.random() < 0.3:
+            theme['level_colors'][rng.randrange(len(theme['level_colors']))] = None
     return {'tasks': tasks, 'links': links, 'fields': fields, 'children': rng.random() < 0.7, 'theme': theme,
             'what': rng.choice(['wbs', 'task', 'list']), 'usage': rng.random() < 0.2}
 
@@ -83,7 +85,7 @@ def execute(prop, case):
     theme = case['theme']
     eff = theme or {'header_color': RED, 'level_colors': [BLUE, TEAL, YELLOW, PINK, RED, GREY]}
     rec['header'] = eff['header_color'] if 'header_color' in eff else GREY
-    rec['levels'] = eff['level_colors']
+    rec['levels'] = ['' if c is None else c for c in eff['level_colors']]      # an unset colour and the empty colour both mean plain text
     rows = []
     for o in allobjs:
         d = []
